@@ -5,6 +5,7 @@ package rules
 import (
 	"encoding/json"
 	"os"
+	"regexp"
 	"sort"
 
 	"verif/internal/core"
@@ -74,4 +75,54 @@ var commonAssumptions = []string{
 	"go/types and golang.org/x/tools v0.29.0 (go/packages, go/ssa) model the program faithfully",
 	"library contracts: sync.Mutex/RWMutex exclude; capacity-1 channels are binary semaphores; btree and goleveldb iterate in key order, btree stops when the callback returns false; os.Rename is atomic",
 	"no reflection, unsafe or cgo in the analysed packages (asserted by the loader: no ignored files, packages type-check)",
+}
+
+// Only restricts a rule to the obligations whose construct matches one of the
+// regular expressions (property scoping: a property reports only the rule
+// instances that are necessary conditions of *that* property).
+func Only(r Rule, patterns ...string) Rule {
+	var res []*regexp.Regexp
+	for _, p := range patterns {
+		res = append(res, regexp.MustCompile(p))
+	}
+	return Rule{Name: r.Name, Run: func(c *core.Ctx) {
+		old := c.Filter
+		c.Filter = func(rule, construct string) bool {
+			if old != nil && !old(rule, construct) {
+				return false
+			}
+			for _, re := range res {
+				if re.MatchString(construct) {
+					return true
+				}
+			}
+			return false
+		}
+		defer func() { c.Filter = old }()
+		r.Run(c)
+	}}
+}
+
+// Except drops the obligations whose construct matches.
+func Except(r Rule, patterns ...string) Rule {
+	var res []*regexp.Regexp
+	for _, p := range patterns {
+		res = append(res, regexp.MustCompile(p))
+	}
+	return Rule{Name: r.Name, Run: func(c *core.Ctx) {
+		old := c.Filter
+		c.Filter = func(rule, construct string) bool {
+			if old != nil && !old(rule, construct) {
+				return false
+			}
+			for _, re := range res {
+				if re.MatchString(construct) {
+					return false
+				}
+			}
+			return true
+		}
+		defer func() { c.Filter = old }()
+		r.Run(c)
+	}}
 }
